@@ -497,3 +497,138 @@ theorem exportations_ok {paths : List Name} {imps : List (Name × List Name)}
   exact hx
 
 end Paroxy.DB
+
+namespace Paroxy.DB
+
+/-! ## The labels index after fix F47: `pushNew` / `collectNew` -/
+
+theorem get?_pushNew (d : List (Name × List Name)) (k v k' : Name) :
+    get? (pushNew d k v) k' =
+      if k' = k then some (addNew ((get? d k).getD []) v) else get? d k' := by
+  induction d with
+  | nil =>
+    simp only [pushNew, get?_cons, get?]
+    by_cases h : k = k'
+    · simp [h, addNew]
+    · have : ¬ k' = k := fun e => h e.symm
+      simp [h, this]
+  | cons e t ih =>
+    obtain ⟨k0, v0⟩ := e
+    unfold pushNew
+    by_cases h0 : k0 = k
+    · simp only [h0, if_true, get?_cons]
+      by_cases h : k = k'
+      · simp [h]
+      · have : ¬ k' = k := fun e => h e.symm
+        simp [h, this]
+    · simp only [h0, if_false, get?_cons, ih]
+      by_cases h : k0 = k'
+      · have : ¬ k' = k := fun e => h0 (h.trans e)
+        simp [h, this]
+      · simp [h]
+
+theorem keys_pushNew (d : List (Name × List Name)) (k v : Name) :
+    keys (pushNew d k v) = if k ∈ keys d then keys d else keys d ++ [k] := by
+  induction d with
+  | nil => simp [pushNew, keys]
+  | cons e t ih =>
+    obtain ⟨k0, v0⟩ := e
+    unfold pushNew
+    by_cases h0 : k0 = k
+    · simp [h0, keys]
+    · have hne : ¬ k = k0 := fun e => h0 e.symm
+      simp only [h0, if_false, keys, List.map_cons, List.mem_cons, hne, false_or]
+      have := ih
+      simp only [keys] at this
+      rw [this]
+      by_cases hk : k ∈ List.map (fun x => x.fst) t <;> simp [hk]
+
+theorem nodup_keys_pushNew {d : List (Name × List Name)} (k v : Name) (h : (keys d).Nodup) :
+    (keys (pushNew d k v)).Nodup := by
+  rw [keys_pushNew]
+  split
+  · exact h
+  · rename_i hk
+    rw [List.nodup_append]
+    refine ⟨h, by simp, ?_⟩
+    intro a ha b hb
+    simp only [List.mem_singleton] at hb
+    rw [hb]; intro e; exact hk (e ▸ ha)
+
+/-- the consecutive-duplicate-free list: what `addNew` builds from the occurrences -/
+def dedupAdj (xs : List Name) : List Name := xs.foldl addNew []
+
+theorem get?_foldl_pushNew (occ : List (Name × Name)) (d : List (Name × List Name)) (k : Name) :
+    get? (occ.foldl (fun d o => pushNew d o.1 o.2) d) k =
+      match get? d k with
+      | some l => some ((occOf occ k).foldl addNew l)
+      | none => if occOf occ k = [] then none else some ((occOf occ k).foldl addNew []) := by
+  induction occ generalizing d with
+  | nil =>
+    simp only [List.foldl_nil, occOf, List.filter_nil, List.map_nil, if_true]
+    cases get? d k <;> rfl
+  | cons o t ih =>
+    obtain ⟨n, p⟩ := o
+    simp only [List.foldl_cons]
+    rw [ih, get?_pushNew]
+    by_cases h : k = n
+    · subst h
+      simp only [if_true, occOf, List.filter_cons, decide_true, List.map_cons, List.foldl_cons]
+      cases hg : get? d k with
+      | none => simp [addNew]
+      | some l => simp
+    · have hn : ¬ n = k := fun e => h e.symm
+      simp only [h, if_false, occOf, List.filter_cons, hn, decide_false, Bool.false_eq_true]
+      cases hg : get? d k <;> rfl
+
+theorem nodup_keys_collectNew (occ : List (Name × Name)) : (keys (collectNew occ)).Nodup := by
+  unfold collectNew
+  have : ∀ (occ : List (Name × Name)) (d : List (Name × List Name)), (keys d).Nodup →
+      (keys (occ.foldl (fun d o => pushNew d o.1 o.2) d)).Nodup := by
+    intro occ
+    induction occ with
+    | nil => intro d h; exact h
+    | cons o t ih => intro d h; exact ih _ (nodup_keys_pushNew _ _ h)
+  exact this occ [] (by simp [keys])
+
+theorem get?_collectNew (occ : List (Name × Name)) (k : Name) :
+    get? (collectNew occ) k = if occOf occ k = [] then none else some (dedupAdj (occOf occ k)) := by
+  unfold collectNew
+  rw [get?_foldl_pushNew]
+  rfl
+
+theorem mem_foldl_addNew (xs l : List Name) (x : Name) :
+    x ∈ xs.foldl addNew l ↔ x ∈ l ∨ x ∈ xs := by
+  induction xs generalizing l with
+  | nil => simp
+  | cons a t ih =>
+    simp only [List.foldl_cons, ih, List.mem_cons]
+    unfold addNew
+    split
+    · rename_i hl
+      have ha : a ∈ l := List.mem_of_getLast? hl
+      constructor
+      · rintro (h | h)
+        · exact Or.inl h
+        · exact Or.inr (Or.inr h)
+      · rintro (h | h | h)
+        · exact Or.inl h
+        · rw [h]; exact Or.inl ha
+        · exact Or.inr h
+    · simp only [List.mem_append, List.mem_singleton]
+      constructor
+      · rintro ((h | h) | h)
+        · exact Or.inl h
+        · exact Or.inr (Or.inl h)
+        · exact Or.inr (Or.inr h)
+      · rintro (h | h | h)
+        · exact Or.inl (Or.inl h)
+        · exact Or.inl (Or.inr h)
+        · exact Or.inr h
+
+theorem mem_dedupAdj (xs : List Name) (x : Name) : x ∈ dedupAdj xs ↔ x ∈ xs := by
+  unfold dedupAdj
+  rw [mem_foldl_addNew]
+  simp
+
+end Paroxy.DB
